@@ -46,3 +46,69 @@ Example C07_guard_inhabited :
     parse_file gbk w_ok = PFile b /\ in_fragment b = true /\ classA_ok b = true /\ pos_clean b = true /\
     go_diags demo_cfg b [] = [(2, L 4 6 4 7)] /\ spec_diags demo_cfg b [] = [(2, L 4 6 4 7)].
 Proof. exact guard_witness. Qed.
+
+(* ================================================================== positive theorems (agent traverse-bind)
+   Guards (all boolean): in_fragment, classA_ok (no multi-local order class), pos_clean (every look-up of the run saw no
+   same-named variable rejected by IsCorrectPosition), flags_ok (reads at the same Loc carry the same idiom flags - true
+   when Locs are distinct), decl_locs_distinct (declaration Locs pairwise distinct), not later_elsewhere. *)
+From LH Require Import Proofs.UsageBind Proofs.UsageBindUndef Proofs.UsageBindUnused.
+
+(* the first-pass traversal resolver binds every read and every assigned name exactly like the reference binder *)
+Theorem C07_bindings_agree : forall c b,
+  in_fragment b = true -> classA_ok b = true -> pos_clean b = true ->
+  s1_log (first_pass c b) = file_occs b.
+Proof. exact usage_bindings_agree. Qed.
+Print Assumptions C07_bindings_agree.
+
+(* types 2 and 3: the third pass reports exactly the list the reference demands (type 2 iff the read is bound to no
+   local and no file / built-in / ignored name defines it; type 3 iff only this file defines it, later, top level) *)
+Theorem C07_undefined_partial : forall c b all others,
+  in_fragment b = true -> classA_ok b = true -> pos_clean b = true -> flags_ok b = true ->
+  later_elsewhere c b others = false ->
+  (forall n, name_mem n all = name_mem n (gnames (s1_gmap (first_pass c b))) || name_mem n others) ->
+  s3_diags (run3 true c (s1_gmap (first_pass c b)) all (trace b))
+  = spec_undefined c others (fun l => loc_mem l (supp_locs b)) (circ_ok b (s1_gmap (first_pass c b))) b.
+Proof. exact usage_undefined_agree. Qed.
+Print Assumptions C07_undefined_partial.
+
+(* types 4 and 17: the sweeps on scope exit report exactly (as a set) what the reference demands: type 4 for a local
+   declaration iff no read binds to it and it is not exempt; type 17 for the assignments to such a declaration.
+   decl_locs_distinct b: the declaration Locs of the chunk are pairwise distinct (boolean; true of parser output) *)
+Theorem C07_unused_partial : forall c b,
+  in_fragment b = true -> classA_ok b = true -> pos_clean b = true -> decl_locs_distinct b = true ->
+  forall x, In x (s1_diags (first_pass c b)) <-> In x (spec_unused c b).
+Proof. exact usage_unused_agree. Qed.
+Print Assumptions C07_unused_partial.
+
+(* both halves: the diagnostics of the file are, as a set, the diagnostics the property demands *)
+Theorem C07_diags_agree_partial : forall c b all others,
+  in_fragment b = true -> classA_ok b = true -> pos_clean b = true -> flags_ok b = true ->
+  decl_locs_distinct b = true -> later_elsewhere c b others = false ->
+  (forall n, name_mem n all = name_mem n (gnames (s1_gmap (first_pass c b))) || name_mem n others) ->
+  forall x, In x (go_diags c b all) <-> In x (spec_diags c b others).
+Proof. exact usage_diags_agree. Qed.
+Print Assumptions C07_diags_agree_partial.
+
+(* the statement aimed at: the same without the layout guards.  Missing: pos_clean, flags_ok and decl_locs_distinct
+   discharged from the layout of parser output (C04: distinct, ordered token spans; they fail on the C04 column-restart
+   finding, see C07_pos_filter_refuted) *)
+Definition C07_diags_full : Prop := forall c b all others,
+  in_fragment b = true -> classA_ok b = true -> later_elsewhere c b others = false ->
+  (forall n, name_mem n all = name_mem n (gnames (s1_gmap (first_pass c b))) || name_mem n others) ->
+  forall x, In x (go_diags c b all) <-> In x (spec_diags c b others).
+
+(* non-vacuity: a program with shadowing, loops, closures, the three suppression idioms, a use-before-definition
+   (type 3) and undefined names (type 2) satisfies every guard.
+   local a, b = 1, 2\nif a then local c = b elseif b then a = 3 else b = a end\nfor k, v in pairs(t) do local a = k; a = v end\ng = g or 1\nif not h then h = 2 end\nprint(later) later = 1\nlocal function f(x, y) local z; z = function() return f(z, x) end; return y end\nprint(zz, g, h)\n *)
+Definition w_pos_example : list N := [108; 111; 99; 97; 108; 32; 97; 44; 32; 98; 32; 61; 32; 49; 44; 32; 50; 10; 105; 102; 32; 97; 32; 116; 104; 101; 110; 32; 108; 111; 99; 97; 108; 32; 99; 32; 61; 32; 98; 32; 101; 108; 115; 101; 105; 102; 32; 98; 32; 116; 104; 101; 110; 32; 97; 32; 61; 32; 51; 32; 101; 108; 115; 101; 32; 98; 32; 61; 32; 97; 32; 101; 110; 100; 10; 102; 111; 114; 32; 107; 44; 32; 118; 32; 105; 110; 32; 112; 97; 105; 114; 115; 40; 116; 41; 32; 100; 111; 32; 108; 111; 99; 97; 108; 32; 97; 32; 61; 32; 107; 59; 32; 97; 32; 61; 32; 118; 32; 101; 110; 100; 10; 103; 32; 61; 32; 103; 32; 111; 114; 32; 49; 10; 105; 102; 32; 110; 111; 116; 32; 104; 32; 116; 104; 101; 110; 32; 104; 32; 61; 32; 50; 32; 101; 110; 100; 10; 112; 114; 105; 110; 116; 40; 108; 97; 116; 101; 114; 41; 32; 108; 97; 116; 101; 114; 32; 61; 32; 49; 10; 108; 111; 99; 97; 108; 32; 102; 117; 110; 99; 116; 105; 111; 110; 32; 102; 40; 120; 44; 32; 121; 41; 32; 108; 111; 99; 97; 108; 32; 122; 59; 32; 122; 32; 61; 32; 102; 117; 110; 99; 116; 105; 111; 110; 40; 41; 32; 114; 101; 116; 117; 114; 110; 32; 102; 40; 122; 44; 32; 120; 41; 32; 101; 110; 100; 59; 32; 114; 101; 116; 117; 114; 110; 32; 121; 32; 101; 110; 100; 10; 112; 114; 105; 110; 116; 40; 122; 122; 44; 32; 103; 44; 32; 104; 41; 10].
+Definition b_pos_example : block := Eval vm_compute in block_of w_pos_example.
+Example C07_positive_guards_inhabited :
+  in_fragment b_pos_example = true /\ classA_ok b_pos_example = true /\ pos_clean b_pos_example = true /\
+  flags_ok b_pos_example = true /\ decl_locs_distinct b_pos_example = true /\
+  later_elsewhere demo_cfg b_pos_example [] = false /\
+  length (file_occs b_pos_example) = 27%nat /\
+  map fst (s3_diags (run3 true demo_cfg (s1_gmap (first_pass demo_cfg b_pos_example))
+                          (gnames (s1_gmap (first_pass demo_cfg b_pos_example))) (trace b_pos_example)))
+  = [2; 2; 3; 2] /\
+  map fst (s1_diags (first_pass demo_cfg b_pos_example)) = [4; 4; 17].
+Proof. repeat split; vm_compute; reflexivity. Qed.
